@@ -522,8 +522,10 @@ void *fb_codegen_bfbs_to_buffer(fb_options_t *opts, fb_schema_t *S, void *buffer
 
     B = &builder;
     flatcc_builder_init(B);
-    export_schema(B, opts, S);
-    if (!flatcc_builder_copy_buffer(B, buffer, *size)) {
+    if (export_schema(B, opts, S) || *size < flatcc_builder_get_buffer_size(B) ||
+            !flatcc_builder_copy_buffer(B, buffer, *size)) {
+        /* Too small buffer (or export failure): report failure, size still tells what is needed. */
+        buffer = 0;
         goto done;
     }
     sort_objects(buffer, opts->bgen_length_prefix);
